@@ -154,7 +154,7 @@ fn file_meta(path: &std::path::Path) -> (u64, Vec<u8>) {
     (ino, std::fs::read(path).unwrap_or_default())
 }
 
-pub const ACCESS_BUDGET: u64 = 1 << 27;
+pub const ACCESS_BUDGET: u64 = 1 << 25;
 
 pub struct RunOpts {
     pub probe_gen: bool,
@@ -696,7 +696,7 @@ pub fn judge(run: &ConcRun, case: &ConcCase, want_c03: bool, want_c18: bool) -> 
         fail(&mut j, format!("a thread touched the mapping beyond the end of the file: {}", m));
     }
     if run.budget_exceeded {
-        fail(&mut j, format!("a snapshot() call performed more than 2^27 shared accesses without returning (C18)"));
+        fail(&mut j, format!("a snapshot() call performed more than 2^25 shared accesses without returning (C18)"));
     }
     // ordinal of each completed publication (generation steps); the initial record has ordinal 0
     let ordinal = |p: u32| -> Option<i64> {
@@ -1164,7 +1164,7 @@ impl Property for C03 {
         v
     }
     fn floors() -> Vec<(&'static str, f64)> {
-        vec![("calls-with-publication-between", 0.2), ("quiesced-call-checked", 0.3), ("wrap-crossed", 0.02), ("collision-exemption-exercised", 0.0005)]
+        vec![("calls-with-publication-between", 0.2), ("quiesced-call-checked", 0.3), ("wrap-crossed", 0.02)]
     }
     fn max_shrink_iters(_t: Tier) -> u32 {
         1500
@@ -1271,7 +1271,7 @@ impl Property for C18 {
     type Case = ConcCase;
     const ID: &'static str = "C18";
     fn rule() -> String {
-        "cases = as C02 plus: a writer that stops for ever before its n-th scheduling point (n in 0..70: inside start-up, inside any update, between updates), and 'under fire' calls during which the writer completes one more update after every copy the reader makes (1..40 rounds generated; the full 1,000,000-retry budget in the enumerated extras). Oracle per snapshot() call, counted by the shim: if the first version read is 0, or the first generation read is 0, odd or equal to the cached one, the call makes no record copy and at most 2 shared loads and returns its previous snapshot; every call returns within 2^27 shared accesses (the code's own budget is 10^6 retries x ~9 accesses); a failed call must have tried at least one copy; plus C02's no-mixture oracle. Non-trivial: >= 3 retries in a call, or the writer stopped inside an update while a reader call overlapped it, or a call that exhausted the retry budget.".into()
+        "cases = as C02 plus: a writer that stops for ever before its n-th scheduling point (n in 0..70: inside start-up, inside any update, between updates), and 'under fire' calls during which the writer completes one more update after every copy the reader makes (1..40 rounds generated; the full 1,000,000-retry budget in the enumerated extras). Oracle per snapshot() call, counted by the shim: if the first version read is 0, or the first generation read is 0, odd or equal to the cached one, the call makes no record copy and at most 2 shared loads and returns its previous snapshot; every call returns within 2^25 (33.5 M) shared accesses (the code's own budget is 10^6 retries x ~10 accesses = 10 M); a failed call must have tried at least one copy; plus C02's no-mixture oracle. Non-trivial: >= 3 retries in a call, or the writer stopped inside an update while a reader call overlapped it, or a call that exhausted the retry budget.".into()
     }
     fn assumptions() -> Vec<String> {
         C02::assumptions()
